@@ -19,6 +19,10 @@ const (
 	KindRestartDefect = "restart-after-broadcast"
 	KindExpiryShort   = "expiry-30ms"
 	KindExpiryLong    = "expiry-3h"
+	// scripted reproducers of defects the random workload found
+	KindFundAll      = "fund-everything-low-defrag-threshold"
+	KindSplitV1Pool  = "split-with-unconfirmed-v1-output"
+	KindCrossVersion = "fund-with-unconfirmed-output-of-other-version"
 )
 
 // A Config fully determines a history up to scheduling.
@@ -302,18 +306,24 @@ func (s *session) step(w *worker) {
 		}
 	case k < 62: // split
 		n := []int{1, 2, 3, 5}[rng.IntN(4)]
-		var min types.Currency
-		switch rng.IntN(4) {
-		case 0:
-			min = types.ZeroCurrency
-		case 1:
-			min = hasting
-		case 2:
-			min = pow10(30) // more than a block reward
-		default:
-			min = typicalValue(rng)
+		if t := l.Opts.DefragThreshold; t >= 2 && rng.IntN(6) != 0 {
+			n = 2 + rng.IntN(min(t, 6)-1) // mostly an n the threshold admits
 		}
-		l.Split(w.rec, n, min)
+		var minAmount types.Currency
+		switch rng.IntN(8) {
+		case 0:
+			minAmount = types.ZeroCurrency
+		case 1:
+			minAmount = hasting
+		case 2:
+			minAmount = pow10(30) // more than a block reward
+		case 3:
+			minAmount = typicalValue(rng)
+		default:
+			_, b := l.Balance(w.rec)
+			minAmount = b.Spendable.Div64(uint64(2 * (n + 1) * (1 + rng.IntN(4)))).Add(hasting)
+		}
+		l.Split(w.rec, n, minAmount)
 	case k < 78: // submit an owned transaction
 		if len(w.owned) == 0 {
 			l.Balance(w.rec)
@@ -414,8 +424,17 @@ func (s *session) setup() error {
 		o := &Owned{H: l.NewHandle(), V2: v2}
 		var outs []types.SiacoinOutput
 		var total types.Currency
+		_, bal := l.Balance(s.main)
+		budget := bal.Spendable.Div64(4).Mul64(3)
 		for i := 0; i < s.cfg.UTXOs-1; i++ {
 			v := typicalValue(s.rng)
+			for total.Add(v).Cmp(budget) > 0 {
+				v = v.Div64(10) // keep the fan-out within the matured reward
+				if v.IsZero() {
+					v = hasting
+					break
+				}
+			}
 			outs = append(outs, types.SiacoinOutput{Address: l.Addr, Value: v})
 			total = total.Add(v)
 		}
@@ -483,6 +502,12 @@ func Run(cfg Config, rngFor RNGFor) (*History, error) {
 		err = s.runExpiryShort()
 	case KindExpiryLong:
 		err = s.runExpiryLong()
+	case KindFundAll:
+		// the barrier's "exact" probe in setup already funded everything
+	case KindSplitV1Pool:
+		err = s.runSplitV1Pool()
+	case KindCrossVersion:
+		err = s.runCrossVersion()
 	default:
 		err = errors.New("unknown history kind " + cfg.Kind)
 	}
@@ -611,11 +636,15 @@ func (s *session) runRestartDefect() error {
 	if amount.IsZero() {
 		amount = hasting
 	}
+	done := false
 	if s.rng.IntN(3) == 0 {
-		if ev, _ := l.Split(w.rec, 2+s.rng.IntN(2), pow10(22)); !ev.OK {
-			s.h.Note = "split refused: " + ev.Err
+		// more outputs than the wallet has, so that the split is carried out
+		ev, o := l.Split(w.rec, s.cfg.UTXOs+3, pow10(22))
+		if done = o != nil; !done {
+			s.h.Note = "split not carried out: " + ev.Err
 		}
-	} else {
+	}
+	if !done {
 		o := s.newTxn(s.rng, true, amount)
 		if ev := l.Fund2(w.rec, o, amount, false, ""); !ev.OK {
 			return errors.New("funding failed: " + ev.Err)
@@ -710,4 +739,79 @@ func (s *session) runExpiryLong() error {
 	l.Release(w.rec, o)
 	w.drop(o)
 	return s.barrier("after-release")
+}
+
+// runSplitV1Pool: a pooled v1 transaction pays the wallet its largest output;
+// SplitUTXO then picks that unconfirmed output and asks the manager for a v2
+// transaction set.
+func (s *session) runSplitV1Pool() error {
+	l := s.lab
+	w := s.workers[0]
+	_, b := l.Balance(w.rec)
+	big := b.Spendable.Div64(4).Mul64(3)
+	o := &Owned{H: l.NewHandle()}
+	o.T1 = types.Transaction{SiacoinOutputs: []types.SiacoinOutput{{Address: l.Addr, Value: big}}}
+	if ev := l.Fund1(w.rec, o, big, false, ""); !ev.OK {
+		return errors.New("funding failed: " + ev.Err)
+	}
+	l.Sign(w.rec, o)
+	if ev := l.Submit(w.rec, o, false); !ev.OK {
+		return errors.New("v1 submission failed: " + ev.Err)
+	}
+	l.Split(w.rec, 5, big.Div64(8))
+	return s.barrier("after-split")
+}
+
+// runCrossVersion: a pooled transaction of one version pays the wallet; a
+// transaction of the other version is funded with useUnconfirmed for more
+// than the confirmed outputs can cover, signed and submitted.
+func (s *session) runCrossVersion() error {
+	l := s.lab
+	w := s.workers[0]
+	firstV2 := s.cfg.Stream%2 == 0
+	_, b := l.Balance(w.rec)
+	half := b.Spendable.Div64(2)
+	o := &Owned{H: l.NewHandle(), V2: firstV2}
+	outs := []types.SiacoinOutput{{Address: l.Addr, Value: half}}
+	var ev *Event
+	if firstV2 {
+		o.T2 = []types.V2Transaction{{SiacoinOutputs: outs}}
+		o.Sign2 = [][]int{nil}
+		ev = l.Fund2(w.rec, o, half, false, "")
+	} else {
+		o.T1 = types.Transaction{SiacoinOutputs: outs}
+		ev = l.Fund1(w.rec, o, half, false, "")
+	}
+	if !ev.OK {
+		return errors.New("funding failed: " + ev.Err)
+	}
+	l.Sign(w.rec, o)
+	if ev := l.Submit(w.rec, o, false); !ev.OK {
+		return errors.New("submission failed: " + ev.Err)
+	}
+	_, b = l.Balance(w.rec)
+	amount := b.Spendable.Add(half.Div64(2)) // needs the unconfirmed output
+	o2 := &Owned{H: l.NewHandle(), V2: !firstV2}
+	outs = []types.SiacoinOutput{{Address: types.VoidAddress, Value: amount}}
+	if o2.V2 {
+		o2.T2 = []types.V2Transaction{{SiacoinOutputs: outs}}
+		o2.Sign2 = [][]int{nil}
+		ev = l.Fund2(w.rec, o2, amount, true, "")
+	} else {
+		o2.T1 = types.Transaction{SiacoinOutputs: outs}
+		ev = l.Fund1(w.rec, o2, amount, true, "")
+	}
+	if !ev.OK {
+		// with unconfirmed outputs of the other version excluded this is
+		// the expected outcome
+		s.h.Note = "second funding refused: " + ev.Err
+		return s.barrier("after-refusal")
+	}
+	w.owned = append(w.owned, o2)
+	l.Sign(w.rec, o2)
+	if ev := l.Submit(w.rec, o2, false); !ev.OK {
+		l.Release(w.rec, o2)
+	}
+	w.drop(o2)
+	return s.barrier("after-submit")
 }
